@@ -22,7 +22,13 @@ func VerifC09Uncertain() {
 	retryInterval = 1000 * time.Millisecond
 	checkInterval = 50 * time.Millisecond
 	w := vNewWorld(zzverif.Param("keys", 1))
-	if sc := zzverif.Param("scenario", -1); sc >= 0 {
+	lowest := w.base
+	if zzverif.Param("arbitrary", 0) == 1 {
+		// an arbitrary store state satisfying the representation invariant (the inductive pre-state)
+		w.vArbitraryState()
+		w.vInvariant(vNames[0], "pre-state")
+		lowest = 0
+	} else if sc := zzverif.Param("scenario", -1); sc >= 0 {
 		w.vScenario(sc) // a fixed key history: 0 = created and deleted (the deletion mark is still there)
 	} else {
 		w.history()
@@ -161,7 +167,7 @@ func VerifC09Uncertain() {
 			// newest live version below the event's revision in the reference model (which also
 			// holds writes that landed without ever being announced)
 			found := false
-			for r := e.Revision - 1; r > w.base && !found; r-- {
+			for r := e.Revision - 1; r > lowest && !found; r-- {
 				if v, ok := w.g.At(e.Kv.Key, r); ok {
 					found = true
 					zzverif.Assert(zzverif.BytesEq(e.Kv.Value, v.Val), "a delete event carries the previous value")
@@ -195,6 +201,13 @@ func VerifC09Uncertain() {
 	for i := range want {
 		zzverif.Assert(zzverif.BytesEq(l2.Kvs[i].Key, want[i].Key), "durable: key")
 		zzverif.Assert(zzverif.BytesEq(l2.Kvs[i].Value, want[i].Val), "durable: value")
+	}
+	if zzverif.Param("arbitrary", 0) == 1 {
+		if c := w.b.GetCurrentRevision(); c > w.dealt {
+			w.dealt = c // the repair's own revisions
+		}
+		w.marksMayRepeat = true
+		w.vInvariant(vNames[0], "after the repair")
 	}
 	zzverif.Cover("done")
 }
